@@ -361,3 +361,91 @@ Proof.
       apply (nth_in_region pre (fun b => b <> CR)); [exact B|lia]. }
   rewrite F. cbn [bind]. f_equal. lia.
 Qed.
+
+(* ------------------------------------------------------------------ *)
+(* trim on tokens without blanks at their ends                          *)
+(* ------------------------------------------------------------------ *)
+Lemma sget_in s i : 0 <= i < Z.of_nat (length s) -> sget s i = Ok (nth (Z.to_nat i) s 0).
+Proof.
+  intros H. unfold sget.
+  replace ((0 <=? i) && (i <? Z.of_nat (length s))) with true
+    by (symmetry; apply andb_true_intro; split; [apply Z.leb_le|apply Z.ltb_lt]; lia).
+  reflexivity.
+Qed.
+
+Lemma trim_start_skips s : forall d start fuel,
+  let n := Z.of_nat (length s) in
+  0 <= start -> start + Z.of_nat d < n -> (d < fuel)%nat ->
+  (forall i, start <= i < start + Z.of_nat d -> is_white (nth (Z.to_nat i) s 0) = true) ->
+  is_white (nth (Z.to_nat (start + Z.of_nat d)) s 0) = false ->
+  trim_start fuel s start n = Ok (start + Z.of_nat d).
+Proof.
+  induction d as [|d IH]; intros start fuel n H0 H1 Hf Hw Hn; subst n; (destruct fuel as [|f]; [lia|]); cbn [trim_start].
+  - rewrite sget_in by lia. cbn [bind]. replace (start + Z.of_nat 0) with start in Hn by lia.
+    rewrite Hn. cbn [andb]. f_equal. lia.
+  - rewrite sget_in by lia. cbn [bind].
+    rewrite (Hw start) by lia. replace (start <? Z.of_nat (length s)) with true by (symmetry; apply Z.ltb_lt; lia). cbn [andb].
+    rewrite (IH (start + 1) f); [f_equal; lia|lia|lia|lia| |].
+    + intros i Hi. apply Hw. lia.
+    + replace (start + 1 + Z.of_nat d) with (start + Z.of_nat (S d)) by lia. exact Hn.
+Qed.
+
+Lemma trim_end_stops s st e fuel :
+  0 < e <= Z.of_nat (length s) -> is_white (nth (Z.to_nat (e - 1)) s 0) = false -> (0 < fuel)%nat ->
+  trim_end fuel s st e = Ok e.
+Proof.
+  intros H W F. destruct fuel as [|f]; [lia|]. cbn [trim_end].
+  rewrite sget_in by lia. cbn [bind]. rewrite W. reflexivity.
+Qed.
+
+Lemma nth_last_cons : forall (r : list Z) c, nth (length r) (c :: r) 0 = last (c :: r) 0.
+Proof.
+  induction r as [|y r IH]; intros c; [reflexivity|].
+  change (nth (length (y :: r)) (c :: y :: r) 0) with (nth (length r) (y :: r) 0).
+  rewrite (IH y). reflexivity.
+Qed.
+
+Lemma trim_nonempty s : s <> [] ->
+  trim s = (let n := Z.of_nat (length s) in
+            do st <- trim_start (S (length s)) s 0 n;
+            do e <- trim_end (S (length s)) s st n;
+            Ok (substr s st (e - st))).
+Proof. intros H. destruct s; [congruence|reflexivity]. Qed.
+
+(* a token that neither starts nor ends with a blank comes back as written, whatever blanks precede it *)
+Theorem trim_strips_leading_blanks ws k :
+  Forall (fun c => is_white c = true) ws -> k <> [] ->
+  is_white (hd 0 k) = false -> is_white (last k 0) = false ->
+  trim (ws ++ k) = Ok k.
+Proof.
+  intros W NE H L.
+  destruct k as [|c r]; [congruence|]. cbn [hd] in H.
+  set (s := ws ++ c :: r).
+  assert (Ls : length s = (length ws + S (length r))%nat) by (subst s; rewrite app_length; reflexivity).
+  rewrite trim_nonempty by (intro X; rewrite X in Ls; simpl in Ls; lia). cbn zeta.
+  rewrite (trim_start_skips s (length ws) 0 (S (length s))); try lia.
+  - cbn [bind]. rewrite Z.add_0_l.
+    rewrite (trim_end_stops s (Z.of_nat (length ws)) (Z.of_nat (length s)) (S (length s))); try lia.
+    + cbn [bind]. unfold substr. rewrite Nat2Z.id.
+      replace (Z.to_nat (Z.of_nat (length s) - Z.of_nat (length ws))) with (S (length r)) by lia.
+      subst s. rewrite skipn_app, skipn_all, Nat.sub_diag. cbn [skipn app].
+      rewrite firstn_all2 by (simpl; lia). reflexivity.
+    + replace (Z.to_nat (Z.of_nat (length s) - 1)) with (length ws + length r)%nat by lia.
+      subst s. rewrite app_nth2 by lia. replace (length ws + length r - length ws)%nat with (length r) by lia.
+      rewrite nth_last_cons. exact L.
+  - intros i Hi. subst s. rewrite app_nth1 by lia.
+    apply (proj1 (Forall_forall _ _) W). apply nth_In. lia.
+  - rewrite Z.add_0_l, Nat2Z.id. subst s. rewrite app_nth2 by lia. rewrite Nat.sub_diag. exact H.
+Qed.
+
+Corollary header_name_and_value_come_back k v :
+  k <> [] -> is_white (hd 0 k) = false -> is_white (last k 0) = false ->
+  v <> [] -> is_white (hd 0 v) = false -> is_white (last v 0) = false ->
+  trim' (CRLF ++ k) = k /\ trim' (SP :: v) = v.
+Proof.
+  intros K1 K2 K3 V1 V2 V3. unfold trim'.
+  rewrite (trim_strips_leading_blanks CRLF k); [|repeat constructor|assumption..].
+  change (SP :: v) with ([SP] ++ v).
+  rewrite (trim_strips_leading_blanks [SP] v); [|repeat constructor|assumption..].
+  split; reflexivity.
+Qed.
